@@ -158,9 +158,11 @@ func c15Run(t *testing.T, sc Scenario, res *Result) {
 		// function (on that call's T), while the other checks keep hundreds of Custom calls in flight: nothing of
 		// its failures may show up in them
 		neighbour = newTB("C15_neighbour")
+		ncalls := 0
 		failing := rapid.Custom(func(t *rapid.T) int {
 			v := rapid.IntRange(0, 1000).Draw(t, "n")
-			if v%3 == 0 {
+			ncalls++
+			if v%3 == 0 || ncalls >= 12 { // (with a fixed seed all six Checks see the same 15 cases: make sure one of them signals)
 				t.Errorf("the neighbour's own failure (%d)", v)
 			}
 			return v
